@@ -10,6 +10,8 @@ K   : (a) real objects are encoded as `Val`s (by the field lists of T3a) and the
       T3a are compared with the types of the real fields;
       (b) the effect checker's verdict on a function is compared with what the deep snapshot of the
       argument model shows after really calling it.
+      (c) `_choose_param_inits` (bounds and initial estimate of the thetas add_covariate_effect creates) vs the Lean
+      `CovInit.chooseInits` on the statistics the code reads, for covariate columns of constructed classes.
 Mon : the property statement on the real code: deep snapshot of the argument model before/after every
       call (returns or raises); well-formedness of returned models; copy/equality/hash laws.
 """
@@ -30,8 +32,8 @@ import warnings
 
 ID = "C06"
 DRIVER = "drv_c06"
-LEAN_TARGETS = ["PharmpyProofs.C06.Properties", "drv_c06"]
-PROPERTIES = ["PharmpyProofs/C06/Properties.lean"]
+LEAN_TARGETS = ["PharmpyProofs.C06.Properties", "PharmpyProofs.C06.CovInitProperties", "drv_c06"]
+PROPERTIES = ["PharmpyProofs/C06/Properties.lean", "PharmpyProofs/C06/CovInitProperties.lean"]
 LEAN_SOURCES = ["PharmpyModel/C06/*.lean", "PharmpyModel/Generated/EqHash.lean", "PharmpyModel/Generated/Effects.lean",
                 "PharmpyModel/Generated/Containers.lean",
                 "PharmpyProofs/C06/*.lean", "Drivers/C06.lean"]
@@ -42,12 +44,17 @@ RULE = ("call cases: every public function of pharmpy.modeling whose first param
         "optional ones with probability 1/2); the call is made twice on the same argument model; deep snapshot before/after; "
         "pairs (r1, r2) and their components feed the eq/hash comparison.  object cases: seeded pairs of Parameter(s), "
         "ColumnInfo/DataInfo, frozenmapping, EstimationStep/ExecutionSteps, distributions, Compartment/CompartmentalSystem "
-        "(same content built in different orders, or one field changed).  non-trivial = the call returned or raised after "
+        "(same content built in different orders, or one field changed).  coveff cases: pheno with a covariate column of a "
+        "constructed class (0/1 flag mostly 1 / mostly 0, constant for most individuals with the minority above / below, "
+        "constant, continuous at scale 1-100, continuous in the tens of thousands, varying within the individual, a column of "
+        "the example) x add_covariate_effect with exp and 1-2 further effects; _choose_param_inits for every effect and index "
+        "against the Lean chooseInits.  non-trivial = the call returned or raised after "
         "argument construction succeeded / the pair is of a table class; distinct = distinct case JSON")
 TRUSTED = [
     "Lean 4.33 kernel; axioms propext, Quot.sound, Classical.choice only (audited per theorem each run)",
     "translators harness/translate/c06_eqhash.py, c06_effects.py (closed list of AST shapes, refuse otherwise)",
     "hand-written value model PharmpyModel/C06/EqHash.lean and effect language PharmpyModel/C06/Effects.lean",
+    "hand-written model PharmpyModel/C06/CovInit.lean of _choose_bounds/_choose_param_inits (exact rationals, log10 constants -2/2; K tolerance one unit of the 4th decimal at exact rounding ties)",
     "str/int/float/bool/None, symengine/sympy expressions, Path: == and hash agree (atoms of the value model)",
     "pandas 3 Copy-on-Write: a frame derived from another never writes through; only identical objects alias",
     "harness/corr/c06.py: argument generator, snapshot (hash_pandas_object digest of values+index, dtypes, columns, attrs), encoders",
@@ -112,6 +119,11 @@ COLL_OPS = [("create", "-"), ("replace", "-"), ("__add__", "item"), ("__add__", 
 COLL_CLASSES = ["Parameters", "RandomVariables", "DataInfo"]
 ORDER_KINDS = ["odes", "statements", "parameters", "columninfo", "datainfo", "eststep", "rvs", "dists", "basic",
                "model", "compartment", "mappings"]
+# classes of covariate columns (by construction, over the individuals of the example dataset): where the median of the
+# per-individual medians sits relative to the minimum / maximum, and how large the values are
+COV_SHAPES = ["flag-mostly-1", "flag-mostly-0", "mostly-constant-low", "mostly-constant-high", "constant", "continuous",
+              "continuous-wide", "time-varying", "column-of-model"]
+COV_EFFECTS = ["exp", "lin", "piece_lin", "pow", "cat", "cat2", "other"]
 OBJECT_KINDS = ["parameter", "parameters", "columninfo", "datainfo", "frozenmapping", "eststep", "steps", "normal", "joint",
                 "rvs", "compartment", "odes", "statements", "assignment", "model_dataset", "model_iie", "varlevel"]
 
@@ -159,6 +171,8 @@ def gen_cases(rng: random.Random, n: int, tier: str):
         out.append({"kind": "coll", "cls": COLL_CLASSES[j % 3], "op": (j // 3) % len(COLL_OPS), "seed": rng.randrange(1 << 30)})
     for j in range(max(10, n // 25)):
         out.append({"kind": "cacheops", "seed": rng.randrange(1 << 30)})
+    for j in range(max(2 * len(COV_SHAPES), n // 10)):
+        out.append({"kind": "coveff", "shape": COV_SHAPES[j % len(COV_SHAPES)], "seed": rng.randrange(1 << 30)})
     for j in range(n_com):
         f, g = rng.sample(range(len(COMMUTING)), 2)
         out.append({"kind": "commute", "f": f, "g": g, "recipe": rng.choice([0, 0, 0, 1, 2, 3, 9]), "seed": rng.randrange(1 << 30)})
@@ -190,6 +204,9 @@ def corpus_cases():
         {"kind": "commute", "f": 0, "g": 1, "recipe": 0, "seed": 200},
         {"kind": "commute", "f": 2, "g": 1, "recipe": 0, "seed": 201},
         {"kind": "commute", "f": 6, "g": 8, "recipe": 0, "seed": 202},
+    ] + [{"kind": "coveff", "shape": sh, "seed": 600 + i} for i, sh in enumerate(COV_SHAPES)] + [
+        # a 0/1 flag column of the example as covariate (median == maximum)
+        {"kind": "coveff", "shape": "column-of-model", "seed": 611}, {"kind": "coveff", "shape": "column-of-model", "seed": 612},
     ] + [
         # time/date translation on datasets with NM-TRAN clock strings (with a DATE column, with it marked
         # dropped, with it removed, without one): the paths of translate_nmtran_time that the plain example never takes
@@ -378,7 +395,8 @@ def _pools(model):
     except Exception:
         pools["indiv"] = ["CL", "V"]
     pools["columns"] = list(model.datainfo.names)
-    pools["covs"] = [c for c in pools["columns"] if c in ("WGT", "APGR")] or pools["columns"][:1]
+    # continuous covariates and 0/1 flag columns (median of the per-individual medians == minimum or maximum)
+    pools["covs"] = [c for c in pools["columns"] if c in ("WGT", "APGR", "FA1", "FA2")] or pools["columns"][:1]
     pools["symbols"] = [str(s.symbol) for s in model.statements if hasattr(s, "symbol")]
     ode = model.statements.ode_system
     pools["comps"] = list(ode.compartment_names) if ode is not None else ["CENTRAL"]
@@ -1664,11 +1682,182 @@ def run_cacheops(case, drv):
     return {"k": k, "mon": mon, "tags": tags + ["cacheops"], "nontrivial": True}
 
 
+# ================================================================== covariate-effect cases
+
+def _cov_column(shape, rng, df):
+    """A covariate column of the given class for the individuals of `df` (values with at most 2 decimals);
+    returns (column name, Series or None when an existing column is used)."""
+    pd = _S["pd"]
+    ids = list(dict.fromkeys(df["ID"]))
+    n = len(ids)
+    if shape == "column-of-model":
+        return rng.choice(["FA1", "FA2", "APGR", "WGT"]), None
+    scale = rng.choice([1, 1, 10, 100])
+    base = round(rng.choice([0.0, 1.0, rng.uniform(0.5, 9.0)]) * scale, 2)
+    minority = rng.sample(ids, rng.randint(1, (n - 1) // 2))
+    if shape == "flag-mostly-1":
+        per = {i: 0.0 if i in minority else 1.0 for i in ids}
+    elif shape == "flag-mostly-0":
+        per = {i: 1.0 if i in minority else 0.0 for i in ids}
+    elif shape == "mostly-constant-low":       # median == minimum
+        per = {i: round(base + scale * rng.uniform(0.1, 5.0), 2) if i in minority else base for i in ids}
+    elif shape == "mostly-constant-high":      # median == maximum
+        per = {i: round(base - scale * rng.uniform(0.1, 5.0), 2) if i in minority else base for i in ids}
+    elif shape == "constant":
+        per = {i: base for i in ids}
+    elif shape == "continuous":
+        per = {i: round(scale * rng.uniform(0.5, 9.0), 2) for i in ids}
+    elif shape == "continuous-wide":           # median more than 2000 above the minimum
+        s_ = rng.choice([5000.0, 20000.0, 100000.0])
+        per = {i: round(s_ * rng.uniform(1.5, 5.0), 1) for i in ids}
+        per[ids[0]] = s_
+    elif shape == "time-varying":              # varies within the individual; the individual median is the usual value
+        usual = {i: base if i not in minority else round(base + scale * rng.uniform(0.1, 5.0), 2) for i in ids}
+        if rng.random() < 0.5:
+            usual = {i: round(scale * rng.uniform(0.5, 9.0), 2) for i in ids}
+        vals = []
+        cnt = df.groupby("ID").cumcount()
+        for i, c in zip(df["ID"], cnt):
+            v = usual[i]
+            if c > 0 and c % 5 == 4:          # at most every fifth record deviates, never the majority
+                v = round(v + scale * rng.uniform(-0.4, 3.0), 2)
+            vals.append(v)
+        return "COVX", pd.Series(vals, index=df.index, dtype=float)
+    else:
+        raise ValueError(shape)
+    return "COVX", df["ID"].map(per).astype(float)
+
+
+def _cov_model(case):
+    """pheno with the generated covariate column (type covariate)."""
+    M = _S["M"]
+    if "coveff_base" not in _S:
+        m0 = M.load_example_model("pheno")
+        _prehash(m0)
+        _S["coveff_base"] = m0
+    base = _S["coveff_base"]
+    rng = random.Random(case["seed"])
+    df = base.dataset.copy()
+    cov, col = _cov_column(case["shape"], rng, df)
+    if col is None:
+        return base, cov, rng
+    df[cov] = col
+    m = base.replace(dataset=df)
+    di = m.datainfo
+    m = m.replace(datainfo=di.set_column(di[cov].replace(type="covariate")))
+    m = m.update_source()
+    return m, cov, rng
+
+
+def _frac(x):
+    from fractions import Fraction
+    f = Fraction(repr(float(x)))
+    return f"{f.numerator}/{f.denominator}"
+
+
+def _cov_position(effect, md, mn, mx):
+    """decidable description of the covariate class (from the three statistics the code reads)"""
+    if md == mn or md == mx:
+        return "median-at-min-or-max"
+    if effect == "lin" and round(1 / (md - mn), 4) < 0.001:
+        return "linear-upper-bound-below-0.001"
+    return "median-interior"
+
+
+def run_coveff(case, drv):
+    """add_covariate_effect on a covariate of a constructed class.  Mon: argument untouched, result well formed (the new
+    thetas lie within their bounds).  K: `_choose_param_inits` (every effect, index None/0/1/2) vs the Lean `chooseInits`
+    on the statistics the code reads (median of individual medians, min, max as exact rationals of the floats)."""
+    M, Model = _S["M"], _S["Model"]
+    from pharmpy.modeling import covariate_effect as CE
+    k, mon, tags = [], [], []
+    model, cov, rng = _cov_model(case)
+    df = model.dataset
+    md = float(CE._calculate_median(model, cov))
+    mn, mx = float(df[cov].min()), float(df[cov].max())
+    tags += [f"coveff:{case['shape']}", "coveff:" + _cov_position("-", md, mn, mx)]
+    if not (mn <= md <= mx):
+        raise RuntimeError(f"median {md} outside [{mn}, {mx}]")
+    # ---- K
+    for effect in COV_EFFECTS:
+        for index in (None, 0, 1, 2):
+            if index is not None and effect != "piece_lin":
+                continue
+            try:
+                real = CE._choose_param_inits(effect, model, cov, index)
+                real = ("ok", float(real["init"]), float(real["lower"]), float(real["upper"]))
+            except Exception as e:
+                real = ("err", type(e).__name__ + ":" + str(e)[:40])
+            if drv is None:
+                continue
+            ans = drv.ask(["covinit", effect, _frac(md), _frac(mn), _frac(mx), "none" if index is None else str(index)])
+            where = f"_choose_param_inits({effect!r}, {cov} with median {md}, min {mn}, max {mx}, index={index})"
+            if not isinstance(ans, list) or not ans or ans[0] not in ("ok", "err"):
+                k.append(f"{where}: driver answered {ans}")
+            elif ans[0] == "err" or real[0] == "err":
+                if ans[0] != real[0] or not (ans[1] == "piece-lin-median-at-extreme" and real[1].startswith("Exception:Median cannot")):
+                    k.append(f"{where}: model {ans}, code {real}")
+                else:
+                    tags.append("coveff:refused-piece-lin")
+            else:
+                i10, l4, u4 = int(ans[1]), int(ans[2]), int(ans[3])
+                dl, du = abs(real[2] * 1e4 - l4), abs(real[3] * 1e4 - u4)
+                # the code divides the float log(0.01, 10) = -1.9999999999999996, the model the exact -2: an exact tie
+                # of the fourth decimal may round the other way (one unit)
+                tie = dl > 1e-6 or du > 1e-6
+                if tie:
+                    tags.append("coveff:rounding-tie")
+                tol = (10.0 if tie else 0.0) + 1e-6 * max(1.0, abs(i10))
+                if dl > 1.000001 or du > 1.000001 or abs(real[1] * 1e5 - i10) > tol:
+                    k.append(f"{where}: model init {i10}e-5 bounds [{l4}e-4, {u4}e-4], code init {real[1]} bounds [{real[2]}, {real[3]}]")
+                inside = real[2] <= real[1] <= real[3]
+                if (ans[4] == "true") != inside and not tie:
+                    k.append(f"{where}: model says init within bounds = {ans[4]}, code gives {real[1:]}")
+                if ans[5] == "true" and not inside and not tie:
+                    k.append(f"{where}: contradicts init_within_bounds_partial: side condition holds, code gives {real[1:]}")
+                tags.append(f"coveff:{effect}:{'inside' if inside else 'outside'}")
+    # ---- Mon: the public function
+    distinct = df[cov].nunique()
+    effects = ["exp"]
+    pool = ["lin", "piece_lin"] + (["pow"] if mn > 0 else []) + (["cat", "cat2"] if distinct <= 4 else [])
+    effects += rng.sample(pool, min(len(pool), rng.randint(1, 2)))
+    before = snapshot(model)
+    for effect in effects:
+        kwargs = {"parameter": rng.choice(["CL", "VC"]), "covariate": cov, "effect": effect}
+        if rng.random() < 0.3:
+            kwargs["operation"] = "+"
+        outcome, r = "returns", None
+        try:
+            with warnings.catch_warnings(), contextlib.redirect_stdout(io.StringIO()):
+                warnings.simplefilter("ignore")
+                r = M.add_covariate_effect(model, **kwargs)
+        except Exception as e:
+            outcome = "raises:" + type(e).__name__
+        tags.append(f"coveff:call:{effect}:{outcome}")
+        diff = snap_diff(before, snapshot(model))
+        if diff:
+            what = "dataset" if any(d in ("dataset", "id:_dataset") for d in diff) else sorted(diff)[0].split(":")[0]
+            mon.append({"cls": f"argument-mutated:{what}:add_covariate_effect",
+                        "what": f"add_covariate_effect(model[{case['shape']}], {json.dumps(kwargs)}) {outcome}: snapshot of the "
+                                f"argument model differs in {diff[:6]}"})
+            _S.pop("coveff_base", None)
+            break
+        if isinstance(r, Model):
+            pos = _cov_position(effect, md, mn, mx)
+            for cls, what in wellformed(r, model, "add_covariate_effect", kwargs):
+                if cls.startswith("wf-init-outside-bounds:"):
+                    cls = f"wf-init-outside-bounds:add_covariate_effect:{effect}:{pos}"
+                mon.append({"cls": cls, "what": f"add_covariate_effect(model, {json.dumps(kwargs)}) with covariate class "
+                                                f"{case['shape']} (median {md}, min {mn}, max {mx}) returned a model with: {what}"})
+            check_cache(r, mon, tags, "add_covariate_effect result")
+    return {"k": k, "mon": mon, "tags": tags, "nontrivial": True}
+
+
 def run_case(case, drv):
     import time
     t0 = time.time()
     kind = case["kind"]
-    res = {"call": run_call, "orders": run_orders, "commute": run_commute, "coll": run_coll, "cacheops": run_cacheops}.get(kind, run_obj)(case, drv)
+    res = {"call": run_call, "orders": run_orders, "commute": run_commute, "coll": run_coll, "cacheops": run_cacheops, "coveff": run_coveff}.get(kind, run_obj)(case, drv)
     dt = time.time() - t0
     if dt > 3 and os.environ.get("VERIF_DEBUG"):   # timing is not part of the (deterministic) evidence
         res.setdefault("tags", []).append(f"slow>3s:{case.get('fn', case.get('what'))}:recipe{case.get('recipe', '')}:{int(dt)}s")
